@@ -261,6 +261,30 @@ Theorem C12_client_sees_database : forall ss mtu, 23 <= mtu -> specs_ok ss = tru
 Proof. exact client_sees_database. Qed.
 Print Assumptions C12_client_sees_database.
 
+(* a read while the ATT_MTU changes (an MTU exchange served between two requests of read_value):
+   [m k] is the ATT_MTU in force on both ends when the k-th response of the read is produced and
+   received; read_value tests against self.mtu AFTER each await, i.e. against [m k] *)
+Theorem C12_long_read_exact_any_mtu : forall value m, (forall j, 2 <= m j) -> Z.of_nat (length value) <= 0xFFFF ->
+  read_from_server_dyn (S (length value)) m value = RDone value.
+Proof. exact long_read_exact_any_mtu. Qed.
+Print Assumptions C12_long_read_exact_any_mtu.
+
+(* tests against an ATT_MTU remembered from before the first request are refuted ... *)
+Theorem C12_read_value_stale_mtu_refuted :
+  exists value snapshot m, (forall j, 2 <= m j) /\
+    read_from_server_stale (S (length value)) snapshot m value <> RDone value.
+Proof. exact read_value_stale_mtu_refuted. Qed.
+Print Assumptions C12_read_value_stale_mtu_refuted.
+
+(* ... and so is the server before D12f (ATTRIBUTE_NOT_LONG at an offset > 0): 60 bytes read at
+   ATT_MTU 23 then 100 came back as their first 22 *)
+Theorem C12_read_blob_unfixed_refuted :
+  let value := repeat 7 60 in let m := fun k : nat => if Nat.eqb k 0 then 23 else 100 in
+  read_value_dyn 61 (srv_read (m 0%nat) value) (fun k off => srv_read_blob_unfixed (m k) value off) m
+  = RDone (repeat 7 22).
+Proof. exact read_blob_unfixed_refuted. Qed.
+Print Assumptions C12_read_blob_unfixed_refuted.
+
 (* ---------------------------------------------------------------- the model matches the source (regenerated on every run)
    Gen/C12Shape.v is written by tools/translate/c12_shape.py from the current bumble sources:
    the control-flow skeleton of the 31 anchored functions and 63 constants of their arithmetic.
@@ -305,7 +329,7 @@ Theorem C12_shape_read_blob : forall mtu v off,
   srv_read_blob mtu v off
   = let len := Z.of_nat (length v) in
     if len <? off then VErr k_err_invalid_offset
-    else if len <=? mtu - k_blob_not_long then VErr k_err_not_long
+    else if andb (off =? 0) (len <=? mtu - k_blob_not_long) then VErr k_err_not_long
     else VVal (sublist off (Z.min (mtu - k_blob_part) (len - off)) v).
 Proof. exact shape_read_blob. Qed.
 Print Assumptions C12_shape_read_blob.
